@@ -234,14 +234,24 @@ def run_cli(case):
     argv = ['simulate', 'recession', db, ypath, '-o', out]
     if case['observations']:
         argv.append('--observations')
+    # a second set-curvature: refused today (the first value stays in
+    # force); if it were accepted, the new value would be the one to use
+    curvature = case['curvature']
+    st2, _, _, _ = cs.run_main(['set-curvature', db, '9.75'])
+    if st2 == 0:
+        curvature = 9.75
     status, _, _, exc = cs.run_main(argv)
     connection = sqlite3.connect(db)
-    view = connection.execute(
-        'SELECT zeta_mm, elapsed_time_s FROM average_recession_time '
-        'ORDER BY zeta_mm').fetchall()
+    view = simdata.master_curve(connection, 'recession')
     et_a, et_b = et_averages(connection)
     connection.close()
     os.unlink(db)
+    if et_a == 0 and curvature == 0:
+        # ET and curvature both zero: outside the property's domain
+        if os.path.exists(out):
+            os.unlink(out)
+        return Result(nontrivial=False, outcome='outside-domain',
+                      counters={'cases_with_zero_et_and_zero_curvature': 1})
     if status != 0:
         return Result(viol=[('command-failed', repr(exc)[:300])],
                       nontrivial=True, outcome='exc')
@@ -257,7 +267,7 @@ def run_cli(case):
     fits = []
     for et in (et_a, et_b):
         ref = reference_curve(sy, T_ref, breaks, levels, et,
-                              case['curvature'] * 1e-3, mean)
+                              curvature * 1e-3, mean)
         fits.append(ref)
     span = abs(fits[0][-1] - fits[0][0]) + 1e-9
     tol = 1e-6 * span
@@ -283,7 +293,9 @@ def run_cli(case):
             viol.append(('table-shape', repr(doc)[:200]))
         else:
             rows = doc[1:]
-            if [r[0] for r in rows] != want_levels:
+            if any(not abs(r[0] - z_) <= 1e-9 * (abs(z_) + 1)
+                   for r, z_ in zip(rows, want_levels)) or len(rows) != len(
+                       want_levels):
                 viol.append((
                     'table-levels',
                     'level column %r, expected levels in mm from highest '
